@@ -896,6 +896,13 @@ pub fn run_c10(tier: Tier) -> i32 {
     }
     push_cfgchange(&mut exps, tier.pick(3, 4));
     push_dec9(&mut exps, tier.pick(1, 3), true);
+    // the 9-decimal copy of the deepest exploration runs one level shallower (the 6-decimal original keeps depth 4;
+    // together they took 25 min of a 38 min thorough tier)
+    for e in exps.iter_mut() {
+        if e.cfg.dec == 9 && e.depth >= 4 {
+            e.depth = 3;
+        }
+    }
     push_unknown_variants(&mut exps, &mut run);
     run_exps(&mut run, step_c10, exps, |_| {});
     run.finish()
